@@ -284,7 +284,7 @@ pub fn run_socket(address: &str, reqs: &[Req], depth: usize, rng: &mut Rng, segm
 
 pub fn run_sockets(ctx: &Ctx, which: &str) {
     let tier = ctx.tier;
-    let nconn = tier.pick(300usize, 20_000usize);
+    let nconn = tier.pick(1500usize, 20_000usize);
     let syms = symbols(CORE_KINDS, true);
     for (ti, &tr) in [Transport::UnixPath, Transport::Tcp].iter().enumerate() {
         let mut server = match Server::start(standard_service(SvcCfg::default()), tr, ServerCfg::default()) {
